@@ -208,13 +208,27 @@ fn honest_check(n: usize, order: &[u64]) -> Option<String> {
     let order = order.to_vec();
     let r = watch(move || {
         let mut w = match writer(n) { Ok(w) => w, Err(e) => return Some(format!("setup: {e}")) };
-        let mut rep = match replica() { Ok(r) => r, Err(e) => return Some(format!("setup: {e}")) };
-        for i in order.iter().cloned() {
+        let rdisk = SharedDisk::new();
+        let mut rep = match storage_on(&rdisk).map_err(|e| e.to_string()).and_then(|st| block_on(HypercoreBuilder::new(st).key_pair(PartialKeypair { public: fixed_key().public, secret: None }).build()).map_err(|e| e.to_string())) { Ok(r) => r, Err(e) => return Some(format!("setup: {e}")) };
+        for (step, i) in order.iter().cloned().enumerate() {
+            // C03 "across replica close/reopen": half way through, the replica is dropped and reopened from its storage
+            if step > 0 && step == order.len() / 2 {
+                drop(rep);
+                rep = match storage_on(&rdisk).map_err(|e| e.to_string()).and_then(|st| block_on(HypercoreBuilder::new(st).open(true).build()).map_err(|e| e.to_string())) { Ok(r) => r, Err(e) => return Some(format!("reopening the replica after {step} requests: {e}")) };
+                for k in order[..step].iter().cloned() { let got = block_on(rep.get(k)).ok().flatten(); let want = block_on(w.get(k)).ok().flatten(); if got != want { return Some(format!("after reopening the replica: block {k} differs from the writer's (or cannot be read)")); } }
+            }
             let nodes = match block_on(rep.missing_nodes(i)) { Ok(x) => x, Err(e) => return Some(format!("missing_nodes({i}): {e}")) };
             let rl = rep.info().length; let wl = w.info().length;
             let up = if rl < wl { Some(RequestUpgrade { start: rl, length: wl - rl }) } else { None };
-            let proof = match block_on(w.create_proof(Some(RequestBlock { index: i, nodes }), None, None, up)) { Ok(Some(p)) => p, Ok(None) => return Some(format!("no proof for held block {i}")), Err(e) => return Some(format!("create_proof({i}): {e}")) };
-            match block_on(rep.verify_and_apply_proof(&proof)) { Ok(true) => {}, Ok(false) => return Some(format!("honest proof for block {i} refused")), Err(e) => return Some(format!("honest proof for block {i} rejected: {e}")) }
+            // every other request also seeks to a byte: the writer may refuse the combination (then the request is repeated
+            // without the seek), but a proof it does create must be accepted
+            let wb = w.info().byte_length;
+            let seek = if (i + n as u64) % 2 == 0 && wb > 0 { Some(RequestSeek { bytes: (i * 5 + 3) % wb }) } else { None };
+            let mut proof = None;
+            if seek.is_some() { if let Ok(Some(p)) = block_on(w.create_proof(Some(RequestBlock { index: i, nodes }), None, seek.clone(), up.clone())) { proof = Some((p, true)); } }
+            let (proof, with_seek) = match proof { Some(x) => x, None => match block_on(w.create_proof(Some(RequestBlock { index: i, nodes }), None, None, up)) { Ok(Some(p)) => (p, false), Ok(None) => return Some(format!("no proof for held block {i}")), Err(e) => return Some(format!("create_proof({i}): {e}")) } };
+            let what = if with_seek { format!("block {i} + seek {}", seek.as_ref().unwrap().bytes) } else { format!("block {i}") };
+            match block_on(rep.verify_and_apply_proof(&proof)) { Ok(true) => {}, Ok(false) => return Some(format!("honest proof for {what} refused")), Err(e) => return Some(format!("honest proof for {what} rejected: {e}")) }
             let got = block_on(rep.get(i)).ok().flatten(); let want = block_on(w.get(i)).ok().flatten();
             if got != want { return Some(format!("replica block {i} differs from the writer's")); }
         }
@@ -369,7 +383,8 @@ pub fn contracts() -> Vec<Contract> {
             "MerkleTreeChangeset::append_root", "MerkleTreeChangeset::verify_and_set_signature", "MerkleTree::byte_offset_in_changeset", "fn normalize_data"],
             search: search_proofs, rerun: rerun_proof },
         Contract { name: "proofs.honest_replication", covers: &["MerkleTree::missing_nodes", "MerkleTree::create_valueless_proof", "MerkleTree::verify_proof", "fn verify_tree", "fn verify_upgrade", "MerkleTree::byte_offset_in_changeset",
-            "MerkleTree::commit", "MerkleTreeChangeset::append_root", "MerkleTreeChangeset::append", "MerkleTreeChangeset::hash_and_sign"],
+            "MerkleTree::commit", "MerkleTreeChangeset::append_root", "MerkleTreeChangeset::append", "MerkleTreeChangeset::hash_and_sign",
+            "Oplog::update_header_with_changeset", "Oplog::append_changeset", "MerkleTree::seek_proof", "MerkleTree::block_and_seek_proof"],
             search: search_honest, rerun: rerun_honest },
         Contract { name: "e2e.replica_contiguous", covers: &["fn update_contiguous_length", "DynamicBitfield::index_of", "DynamicBitfield::set", "DynamicBitfield::get", "Hypercore::verify_and_apply_proof"],
             search: search_contiguous, rerun: rerun_contiguous },
